@@ -1224,7 +1224,8 @@ fn class_count(class: Class, seed: &[u8], full: bool, thorough: bool, c08: bool,
         }
         Class::Trunc => trunc_lengths(n, thorough).len() as u64,
         Class::Ext => 6,
-        Class::Window => windows(n).len() as u64,
+        // text targets: in addition every byte replaced by a 2-, 3- and 4-byte UTF-8 character
+        Class::Window => windows(n).len() as u64 + if text.is_some() { 3 * n as u64 } else { 0 },
         Class::Pair => {
             let k = pair_windows(n).len() as u64;
             k * k.saturating_sub(1) / 2
@@ -1334,6 +1335,25 @@ fn for_each_case(class: Class, seed: &[u8], full: bool, thorough: bool, c08: boo
                     buf[off..off + w].copy_from_slice(&seed[off..off + w]);
                 }
                 idx += 1;
+            }
+            if text.is_some() {
+                // a valid multi-byte character where the grammar expects ASCII: scanners that
+                // advance byte-wise end up inside the character
+                for p in 0..n {
+                    for ch in ["\u{e9}", "\u{20ac}", "\u{1d11e}"] {
+                        if idx >= hi {
+                            return;
+                        }
+                        if idx >= lo {
+                            let mut v = Vec::with_capacity(n + 3);
+                            v.extend_from_slice(&seed[..p]);
+                            v.extend_from_slice(ch.as_bytes());
+                            v.extend_from_slice(&seed[p + 1..]);
+                            f(idx, &v);
+                        }
+                        idx += 1;
+                    }
+                }
             }
         }
         Class::Pair => {
@@ -1488,7 +1508,7 @@ pub mod bv {
             "size" => vec![2, 3, 4, 4 + 2 * t, 2, 3, 3],
             "tvfs" => vec![6, 5, 2],
             "zbsdiff" => vec![5, 5, 4],
-            "patch-archive" => vec![5, 2, 2, 2, 2],
+            "patch-archive" => vec![5, 2, 2, 2, 2, 4],
             "patch-index" => vec![3, 4 + t],
             "build-config" | "cdn-config" => vec![16, 3],
             "patch-config" => vec![8, 3],
@@ -2063,8 +2083,18 @@ pub mod bv {
         let info = dg[2] == 1;
         let version = dg[3] as u8 + 1;
         let rev = dg[4] == 1;
-        let desc = format!("patch-archive: version {version}, block_size_bits 12, {n} file entries × {per} patches, encoding info {info}, inserted {}", if rev { "descending" } else { "ascending" });
+        // (file, old, patch) key widths; a key narrower than 16 bytes reads back zero-padded
+        let (kf, ko, kp) = [(16u8, 16u8, 16u8), (9, 16, 16), (16, 9, 12), (9, 9, 9)][dg.get(5).copied().unwrap_or(0) as usize];
+        let cut = |k: [u8; 16], w: u8| -> [u8; 16] {
+            let mut o = [0u8; 16];
+            o[..w as usize].copy_from_slice(&k[..w as usize]);
+            o
+        };
+        let desc = format!("patch-archive: version {version}, block_size_bits 12, key sizes {kf}/{ko}/{kp}, {n} file entries × {per} patches, encoding info {info}, inserted {}", if rev { "descending" } else { "ascending" });
         let mut b = PatchArchiveBuilder::new().version(version).block_size_bits(12);
+        if (kf, ko, kp) != (16, 16, 16) {
+            b = b.key_sizes(kf, ko, kp);
+        }
         let einfo = PatchArchiveEncodingInfo { encoding_ckey: key(0x50, 0), encoding_ekey: key(0x50, 1), decoded_size: 1000, encoded_size: 600, espec: "b:{*=z}".to_string() };
         if info {
             b = b.encoding_info(einfo.clone());
@@ -2073,21 +2103,21 @@ pub mod bv {
         let mut es: Vec<String> = Vec::new();
         for i in order {
             let patches: Vec<([u8; 16], u64, [u8; 16], u32, u8)> = (0..per).map(|j| (key(0x5A + j as u8, i), 0xFF_0000_0000 + u64::from(i), key(0x5C + j as u8, i), 200 + i, j as u8)).collect();
-            let mut s = format!("({} size={}:", hex::encode(key(0x58, i)), 2000 + u64::from(i));
+            let mut s = format!("({} size={}:", hex::encode(cut(key(0x58, i), kf)), 2000 + u64::from(i));
             for p in &patches {
-                let _ = write!(s, " [src={} srcsize={} patch={} psize={} idx={}]", hex::encode(p.0), p.1, hex::encode(p.2), p.3, p.4);
+                let _ = write!(s, " [src={} srcsize={} patch={} psize={} idx={}]", hex::encode(cut(p.0, ko)), p.1, hex::encode(cut(p.2, kp)), p.3, p.4);
             }
             s.push(')');
             es.push(s);
             b.add_file_entry(key(0x58, i), 2000 + u64::from(i), patches);
         }
         es.sort();
-        let info_s = if info { format!("ckey={} ekey={} decoded=1000 encoded=600 espec={:?}", hex::encode(einfo.encoding_ckey), hex::encode(einfo.encoding_ekey), einfo.espec) } else { "-".to_string() };
+        let info_s = if info { format!("ckey={} ekey={} decoded=1000 encoded=600 espec={:?}", hex::encode(cut(einfo.encoding_ckey, kf)), hex::encode(cut(einfo.encoding_ekey, kf)), einfo.espec) } else { "-".to_string() };
         done(
             desc,
             b.build().map_err(e2s).map(|bytes| {
                 let p: PatchArchive = parsed(&bytes)?;
-                against_model(&vec![("params", format!("version={version} block_size_bits=12")), ("key-sizes", "file=16 old=16 patch=16".to_string()), ("encoding-info", info_s), ("entries", es.concat())], &proj::patch_archive(&p, &[]))
+                against_model(&vec![("params", format!("version={version} block_size_bits=12")), ("key-sizes", format!("file={kf} old={ko} patch={kp}")), ("encoding-info", info_s), ("entries", es.concat())], &proj::patch_archive(&p, &[]))
             }),
         )
     }
